@@ -452,8 +452,11 @@ func (s *Server) processPollingSubscription(c *streamClient) {
 		// request are completely ignored.
 		_, err := c.stream.Recv()
 		if err == io.EOF {
+			// The client will send no more triggers; what it has already asked
+			// for is still owed to it. Closing the queue lets the sender drain
+			// the pending responses before it ends the RPC.
 			log.Info("Terminating polling subscription due to EOF.")
-			c.errC <- nil
+			c.queue.Close()
 			return
 		}
 		if err != nil {
